@@ -31,3 +31,64 @@ fn k4_cons_first_then_rest_any_rest() {
         assert!(out.is_err() == f2 && marker(&ctx) == m2, "C19: the chain's result is rest's result; context as rest left it");
     }
 }
+
+/// An arbitrary list tail for the induction on `then`: its own `then` is *specified* (not
+/// implemented by tarpc) as "this list, then `next`".
+pub struct RL<'a>(crate::server::request_hook::verif_kani::B<'a>);
+impl<'a> BeforeRequest<u32> for RL<'a> {
+    async fn before(&mut self, ctx: &mut context::Context, req: &u32) -> Result<(), ServerError> {
+        self.0.before(ctx, req).await
+    }
+}
+pub struct RLThen<'a, N>(RL<'a>, N);
+impl<'a, N: BeforeRequest<u32>> BeforeRequest<u32> for RLThen<'a, N> {
+    async fn before(&mut self, ctx: &mut context::Context, req: &u32) -> Result<(), ServerError> {
+        self.0.before(ctx, req).await?;
+        self.1.before(ctx, req).await
+    }
+}
+impl<'a> BeforeRequestList<u32> for RL<'a> {
+    type Then<Next>
+        = RLThen<'a, Next>
+    where
+        Next: BeforeRequest<u32>;
+    fn then<Next: BeforeRequest<u32>>(self, next: Next) -> Self::Then<Next> {
+        RLThen(self, next)
+    }
+    type Serve<S: Serve<Req = u32>> = HookThenServe<S, Self>;
+    fn serving<S: Serve<Req = u32>>(self, serve: S) -> Self::Serve<S> {
+        HookThenServe::new(serve, self)
+    }
+}
+
+/// C19 (induction step for `then`): appending to Cons(first, rest) -- for an arbitrary list
+/// `rest` whose own `then` appends at its end -- yields the order first, rest, next: `then`
+/// appends at the END of the chain, for every chain length.
+#[kani::proof]
+#[kani::unwind(8)]
+fn k4_cons_then_appends_at_end_any_rest() {
+    let log = Log::new();
+    let m0: u64 = kani::any();
+    let req: u32 = kani::any();
+    let first = any_b(1, &log);
+    let rest = any_b(2, &log);
+    let next = any_b(3, &log);
+    let (f1, m1, f2, m2, f3, m3) = (first.fail, first.new_marker, rest.fail, rest.new_marker, next.fail, next.new_marker);
+    let mut chain = BeforeRequestCons(first, RL(rest)).then(next);
+    let mut ctx = any_ctx(m0);
+    let out = run(chain.before(&mut ctx, &req));
+    let l = log.borrow();
+    kani::cover!(!f1 && !f2 && !f3, "reachable: all pass");
+    assert!(l.evs[0] == Some(Ev::Before(1, m0)), "C19: head first");
+    if f1 {
+        assert!(l.n == 1 && out.is_err(), "C19: head failure stops the chain");
+    } else {
+        assert!(l.evs[1] == Some(Ev::Before(2, m1)), "C19: the existing tail runs before the appended hook and sees the head's context");
+        if f2 {
+            assert!(l.n == 2 && out.is_err(), "C19: a failure in the tail stops the chain before the appended hook");
+        } else {
+            assert!(l.n == 3 && l.evs[2] == Some(Ev::Before(3, m2)), "C19: the appended hook runs last and sees every earlier change");
+            assert!(out.is_err() == f3 && marker(&ctx) == m3, "C19: result and context are those of the last hook");
+        }
+    }
+}
